@@ -122,7 +122,12 @@ class _Scripted:
         self.calls += 1
         vals = self.q.pop(0)
         if not self.lanes:
-            return self._s(jnp.asarray(vals, dtype=self.dtype))
+            v = jnp.asarray(vals, dtype=self.dtype)
+            if self.real is D.uniform and len(a) >= 2:
+                # the script is the standard-uniform quantile of the draw: the bounds the code asks for matter
+                lo, hi = jnp.asarray(a[0], dtype=self.dtype), jnp.asarray(a[1], dtype=self.dtype)
+                v = lo + (hi - lo) * v
+            return self._s(v)
         vals = [float(v) for v in vals]
         dtype = self.dtype
 
@@ -232,6 +237,18 @@ def replay(beh, n, prev0, key, with_u=False):
                 if z != want_z:
                     bad.append(f"after resample: particle choices {z} expected {want_z} (ancestors {list(h['anc'])})")
             cur_z = z
+            # estimate(): the weighted particle average sum_i wbar_i f(x_i), for vector- and matrix-valued f (SMC.tla WAvg)
+            wts = [2.0 ** v for v in want_lw]
+            wavg = [sum(w for w, zz in zip(wts, z) if zz == v) / sum(wts) for v in range(3)]
+            try:
+                e1 = np.asarray(pc.estimate(lambda c: jax.nn.one_hot(c["z"], 3)))
+                e2 = np.asarray(pc.estimate(lambda c: jax.nn.one_hot(c["z"], 3)[:, None] * jnp.ones((1, 2))))
+                if e1.shape != (3,) or np.max(np.abs(e1 - np.asarray(wavg))) > 1e-5:
+                    bad.append(f"after {mv}: estimate(one_hot(z)) = {e1.tolist()} expected the weighted frequencies {wavg}")
+                elif e2.shape != (3, 2) or np.max(np.abs(e2 - np.asarray(wavg)[:, None])) > 1e-5:
+                    bad.append(f"after {mv}: estimate of a matrix-valued function = {e2.tolist()} expected {wavg} in both columns")
+            except Exception as ex:
+                bad.append(f"after {mv}: estimate raised {type(ex).__name__}: {str(ex).splitlines()[0][:120] if str(ex) else ''}")
             if int(pc.n_samples.value) != n:
                 bad.append("particle count changed")
             if mv in ("init", "init_prop"):
